@@ -50,7 +50,7 @@ RespOK(e, exp) ==
                                    /\ \A i \in 1..Len(got.entries) : (got.entries[i] = 0) = exp.entries[i]
          [] e.ev = "CheckAndMutate" -> got.matched = exp.matched
          [] e.ev = "ReadModifyWrite" -> ObsRowOK(got.row, exp.row)
-         [] e.ev = "ReadRows" -> /\ RowsOK(got.rows, exp.rows)
+         [] e.ev = "ReadRows" -> /\ exp.amb \/ RowsOK(got.rows, exp.rows)
                                  \* when the raw chunk stream was logged: it is well formed and decodes to the same rows
                                  /\ Len(got.chunks) > 0 =>
                                       /\ WellFormed(got.chunks)
